@@ -15,6 +15,7 @@
 package gitindex
 
 import (
+	"errors"
 	"fmt"
 	"io"
 	"log"
@@ -117,6 +118,10 @@ func (rw *RepoWalker) CollectFiles(t *object.Tree, branch string, ig *ignore.Mat
 		name, entry, err := tw.Next()
 		if err == io.EOF {
 			break
+		}
+		if errors.Is(err, object.ErrMaxTreeDepth) {
+			// The walker makes no progress after this error: it would be returned forever.
+			return nil, fmt.Errorf("tree walk: %w", err)
 		}
 		if err := rw.handleEntry(name, &entry, branch, subRepoVersions, ig); err != nil {
 			return nil, fmt.Errorf("handleEntry: %w", err)
